@@ -202,15 +202,25 @@ fn fam_lzma(ctx: &CaseCtx, cov: &mut Cov) -> CaseOut {
     let fabricated_len = hist.len() as u64;
     // the sink's behaviour must not matter: a third of the runs use a sink that accepts only part
     // of each write (1 byte, or random counts)
-    let sink = match rng.below(6) {
+    let sink = match rng.below(8) {
         0 => SharedSink::new().with(|s| s.short = 1),
         1 => {
             let seed = rng.next();
             SharedSink::new().with(|s| s.short_rng = Some(seed))
         }
+        2 => {
+            // a retryable interruption at one of the first writes (alone or between short writes)
+            let k = rng.range(1, 4);
+            let short = if rng.chance(1, 2) { rng.range(2, 9) as usize } else { 0 };
+            SharedSink::new().with(|s| {
+                s.fail_write_at = Some(k);
+                s.fail_kind = Some(std::io::ErrorKind::Interrupted);
+                s.short = short;
+            })
+        }
         _ => SharedSink::new(),
     };
-    cov.name(if sink.0.borrow().short > 0 || sink.0.borrow().short_rng.is_some() { "runs_with_short_writing_sink" } else { "runs_with_plain_sink" }, 1);
+    cov.name(if sink.0.borrow().fail_write_at.is_some() { "runs_with_sink_interrupted_once" } else if sink.0.borrow().short > 0 || sink.0.borrow().short_rng.is_some() { "runs_with_short_writing_sink" } else { "runs_with_plain_sink" }, 1);
     let obs = sut::new_obs(u64::MAX);
     let reader = if rng.chance(1, 4) { ReaderKind::random(&mut rng) } else { ReaderKind::Slice };
     let mut small_limit = false;
@@ -418,15 +428,25 @@ fn fam_lzma2(ctx: &CaseCtx, cov: &mut Cov) -> CaseOut {
     };
     // the sink's behaviour must not matter: a third of the runs use a sink that accepts only part
     // of each write (1 byte, or random counts)
-    let sink = match rng.below(6) {
+    let sink = match rng.below(8) {
         0 => SharedSink::new().with(|s| s.short = 1),
         1 => {
             let seed = rng.next();
             SharedSink::new().with(|s| s.short_rng = Some(seed))
         }
+        2 => {
+            // a retryable interruption at one of the first writes (alone or between short writes)
+            let k = rng.range(1, 4);
+            let short = if rng.chance(1, 2) { rng.range(2, 9) as usize } else { 0 };
+            SharedSink::new().with(|s| {
+                s.fail_write_at = Some(k);
+                s.fail_kind = Some(std::io::ErrorKind::Interrupted);
+                s.short = short;
+            })
+        }
         _ => SharedSink::new(),
     };
-    cov.name(if sink.0.borrow().short > 0 || sink.0.borrow().short_rng.is_some() { "runs_with_short_writing_sink" } else { "runs_with_plain_sink" }, 1);
+    cov.name(if sink.0.borrow().fail_write_at.is_some() { "runs_with_sink_interrupted_once" } else if sink.0.borrow().short > 0 || sink.0.borrow().short_rng.is_some() { "runs_with_short_writing_sink" } else { "runs_with_plain_sink" }, 1);
     let obs = sut::new_obs(u64::MAX);
     let c = sut::decode(
         if via_xz { Entry::Xz } else { Entry::Lzma2 },
